@@ -2,6 +2,7 @@ package c05
 
 import (
 	"strings"
+	"time"
 	"unicode/utf8"
 
 	"verifharness/internal/core"
@@ -14,8 +15,12 @@ import (
 func Shrinker() func(c core.Case, fails func(core.Case) bool) core.Case {
 	return func(c core.Case, fails func(core.Case) bool) core.Case {
 		budget := 4000
+		// wall-clock bound as well: one evaluation of a big case (a trie of 10^5 nodes) takes
+		// around a second, 4000 of them would hold the verdict back for an hour
+		deadline := time.Now().Add(25 * time.Second)
 		try := func(lines []string) bool {
-			if budget <= 0 {
+			if budget <= 0 || time.Now().After(deadline) {
+				budget = 0
 				return false
 			}
 			budget--
